@@ -258,6 +258,23 @@ pub fn make(prop: &str, tier: Tier, seed: u64) -> Scenario {
     if matches!(prop, "C01" | "C16" | "C19" | "C10") && s.extra.get("plan").is_none() && s.extra.get("kind").is_none() && s.extra.get("c19_cycles").is_none() && (mr.chance(1, 12) || std::env::var("SIM_FORCE_FAMILY").map_or(false, |v| v == "merge")) {
         merge_cascade_history(&mut s, &mut mr);
     }
+    // long churn: 60-140 small commits over a small key pool (tombstones piling up in a small hash
+    // table, free-list churn, the rollback log rolling over and being pruned many times), with
+    // reopenings and rollbacks in between
+    let mut cr = Rng::new(seed ^ 0xC4C4_0177);
+    if matches!(prop, "C01" | "C09" | "C10" | "C16" | "C19") && s.extra.get("plan").is_none() && s.extra.get("kind").is_none() && s.extra.get("c19_cycles").is_none() && (cr.chance(1, 16) || std::env::var("SIM_FORCE_FAMILY").map_or(false, |v| v == "churn")) {
+        let mut p = Profile::default();
+        p.steps = (60, 140); p.pool = (10, 60); p.batch = (1, 10); p.big_pct = 6; p.witness_pct = 0;
+        p.w_commit = 80; p.w_reopen = 5; p.w_rollback = 9; p.w_overlay = 6; p.session_reads = 1; p.session_proves = 1;
+        p.small_ht = cr.chance(1, 2); p.small_segments = true; p.rollback = Some(cr.chance(3, 4)); p.bad_rollback_pct = 10;
+        let s2 = gen_history(prop, seed ^ 0xC4C4_0177, p, s.checks.clone());
+        s.steps = s2.steps; s.opts = s2.opts; s.knobs = s2.knobs; s.probes = s2.probes; s.hasher = s2.hasher; s.sched = s2.sched; s.sched_seed = s2.sched_seed;
+        // a hundred commits: keep the task count moderate (run time, not coverage)
+        s.opts.commit_concurrency = s.opts.commit_concurrency.min(8);
+        for st in s.steps.iter_mut() { if let Step::Reopen { opts } = st { opts.commit_concurrency = opts.commit_concurrency.min(8); } }
+        if !s.extra.is_object() { s.extra = json!({}); }
+        s.extra["rollback_history_every"] = json!(12);
+    }
     // buggify: in a quarter of the fault-free runs page reads and writes are sometimes cut short
     // or interrupted (EINTR); nothing observable may change
     let mut br = Rng::new(seed ^ 0xB066_1F10);
